@@ -621,6 +621,23 @@ func (s *Sim) finalizeAccess() {
 		if shape == p.shape && p.prop == "C05" && (p.c.ErrSeen[p.rid] || p.c.Fuzzy[p.rid]) {
 			shape = p.shape + "-errored-subscription"
 		}
+		if p.prop == "C05" && strings.HasSuffix(shape, "-deferred") && p.c.Direct[p.rid] > 0 && p.c.State == "open" && !p.c.eofSeen() && p.c.Tainted == "" {
+			// as for C04.c: the deferral is a known finding only as far as the
+			// re-check does follow
+			name, query := splitRID(p.c.expandCID(p.rid))
+			rechecked := false
+			s.mu.Lock()
+			for _, q := range s.tr.reqs {
+				if q.Type == "access" && q.CIdx == p.c.CIdx && q.Name == name && q.Query == query && q.Seq > p.trig.DlvSeq {
+					rechecked = true
+				}
+			}
+			s.mu.Unlock()
+			if !rechecked {
+				s.violateAt(p.prop, p.clause, p.shape+"-never-rechecked", p.step, "%s; and no access request for it followed until quiescence", p.msg)
+				continue
+			}
+		}
 		s.violateAt(p.prop, p.clause, shape, p.step, "%s", p.msg)
 	}
 	s.pendingAcc = nil
